@@ -66,6 +66,9 @@ pub enum Step {
     Fill,
     /// `Err(ErrorKind::Interrupted)`, nothing delivered.
     Interrupted,
+    /// An EINTR storm: the next `n` calls all return `Err(ErrorKind::Interrupted)` (a retry limit,
+    /// or a retry counter of any fixed width, would show up).
+    Storm(usize),
     /// Lie: claim `offered + extra` bytes were read (nothing is delivered, stream unchanged).
     Lie(usize),
     /// Panic inside `read()` (nothing delivered).
@@ -106,7 +109,7 @@ impl SourceCfg {
     }
     /// A cyclic plan without any delivering step would make every (correct) retry loop spin forever.
     pub fn live(&self) -> bool {
-        !self.cycle || self.steps.is_empty() || self.steps.iter().any(|s| matches!(s, Step::Deliver(_) | Step::Fill))
+        !self.cycle || self.steps.is_empty() || self.steps.iter().any(|s| matches!(s, Step::Deliver(_) | Step::Fill | Step::Overreport(..)))
     }
     pub fn one_shot() -> Self {
         SourceCfg {
@@ -157,6 +160,8 @@ pub struct SrcState {
     pub cfg: SourceCfg,
     pub pos: usize,
     step_idx: usize,
+    /// Interrupted results still owed by the current `Storm` step.
+    storm_left: usize,
     /// While false the source serves `pre_steps` sizes only (used to pre-fill a `BufReader`).
     pub armed: bool,
     pub pre_sizes: Vec<usize>,
@@ -199,6 +204,7 @@ impl SimSource {
             cfg,
             pos: 0,
             step_idx: 0,
+            storm_left: 0,
             armed: true,
             pre_sizes: vec![],
             pre_idx: 0,
@@ -264,8 +270,17 @@ impl Read for SimSource {
                 Step::Fill
             };
             st.step_idx += 1;
+            if let Step::Storm(n) = step {
+                if st.storm_left == 0 {
+                    st.storm_left = n.max(1);
+                }
+                st.storm_left -= 1;
+                if st.storm_left > 0 {
+                    st.step_idx -= 1; // stay on this step
+                }
+            }
             match step {
-                Step::Interrupted => {
+                Step::Interrupted | Step::Storm(_) => {
                     st.c.interrupted += 1;
                     res = CallRes::Interrupted;
                     ret = Err(io::Error::new(ErrorKind::Interrupted, "simulated EINTR"));
@@ -371,6 +386,8 @@ pub enum ReadPolicy {
     FixedSize(usize),
 }
 
+pub const STORM_SIZES: [usize; 10] = [127, 128, 255, 256, 257, 1000, 65_535, 65_536, 65_537, 100_000];
+
 /// Generates a plan for `len` bytes of data.
 ///
 /// `cuts`: interesting absolute offsets (token starts/ends); some policies cut at +-1 of them.
@@ -470,6 +487,16 @@ pub fn gen_plan(rng: &mut Rng, len: usize, cuts: &[usize], interrupts: u8) -> So
         }
         steps = out;
     }
+    if interrupts == 2 && !cycle && rng.chance(1, 150) {
+        // a giant storm: longer than any fixed-width retry counter up to 16 bits
+        let n = *rng.pick(&STORM_SIZES);
+        let n = if cfg!(miri) { n.min(300) } else { n };
+        let at = rng.below(steps.len() + 1);
+        steps.insert(at, Step::Storm(n));
+        if steps.len() == 1 {
+            steps.push(Step::Fill);
+        }
+    }
     SourceCfg {
         steps,
         cycle,
@@ -484,6 +511,7 @@ pub fn step_to_string(s: &Step) -> String {
         Step::Deliver(n) => format!("d{n}"),
         Step::Fill => "f".to_string(),
         Step::Interrupted => "i".to_string(),
+        Step::Storm(n) => format!("s{n}"),
         Step::Lie(n) => format!("l{n}"),
         Step::Panic => "p".to_string(),
         Step::Overreport(n, e) => format!("o{n}+{e}"),
@@ -496,6 +524,7 @@ pub fn step_from_str(s: &str) -> Option<Step> {
         "d" => Step::Deliver(t.parse().ok()?),
         "f" => Step::Fill,
         "i" => Step::Interrupted,
+        "s" => Step::Storm(t.parse().ok()?),
         "l" => Step::Lie(t.parse().ok()?),
         "p" => Step::Panic,
         "o" => {
